@@ -11,7 +11,7 @@ import bluesky.plans as bp
 import bluesky.preprocessors as bpp
 from bluesky.utils import Msg
 
-from vf.devices import AsyncLocMotor, Det, Flyer, LocMotor, Motor, Sig, StreamDet
+from vf.devices import AsyncLocMotor, CfgSig, Det, Flyer, LocMotor, Motor, Sig, StreamDet
 
 
 def devices(h, faults=None, motor_delay=0.1, det_delay=0.05):
@@ -24,9 +24,10 @@ def devices(h, faults=None, motor_delay=0.1, det_delay=0.05):
     sig2 = Sig("sig2", lg, faults)
     fly = Flyer("fly", lg, faults, delay=det_delay)
     lm = LocMotor("lm", lg, faults, delay=motor_delay)
+    csig = CfgSig("csig", lg, faults)
     alm = [AsyncLocMotor(f"alm{i}", lg, faults, delay=motor_delay) for i in range(2)]
     kd = {f"kdet{i}": Det(f"kdet{i}", lg, faults, delay=None, motors=[m1]) for i in range(4)}
-    return {"m1": m1, "m2": m2, "det": det, "det2": det2, "sig": sig, "fly": fly, "lm": lm, "sig2": sig2, "alm0": alm[0], "alm1": alm[1], **kd}
+    return {"m1": m1, "m2": m2, "det": det, "det2": det2, "sig": sig, "fly": fly, "lm": lm, "sig2": sig2, "alm0": alm[0], "alm1": alm[1], "csig": csig, **kd}
 
 
 def P(h, *what):
@@ -382,6 +383,70 @@ def p_collect_sd(h, d):
             yield Msg("sleep", None, 0.02)
             if k % 2:
                 yield Msg("checkpoint")
+        yield Msg("close_run")
+
+    return body()
+
+
+def p_mon_cfg(h, d):
+    """a monitored signal that is configured while it is monitored; updates at fixed virtual times."""
+    csig, det, m1 = d["csig"], d["det"], d["m1"]
+
+    def body():
+        loop = h.loop
+        handles = [loop.call_later(0.03 + 0.05 * k, csig.put, 500 + k) for k in range(14)]
+        try:
+            yield Msg("open_run")
+            yield Msg("monitor", csig, name="csig_mon")
+            for k in range(3):
+                yield Msg("checkpoint")
+                yield Msg("set", m1, float(k), group="g")
+                yield Msg("wait", None, group="g")
+                if k == 0:
+                    yield Msg("configure", csig)
+                yield Msg("sleep", None, 0.12)
+                yield Msg("create", name="primary")
+                yield Msg("read", det)
+                yield Msg("save")
+            yield Msg("unmonitor", csig)
+            yield Msg("close_run")
+        finally:
+            for hd in handles:
+                hd.cancel()
+
+    def scheduled():
+        yield Msg("null")       # the timers must be created on the loop thread, at the first message
+        return (yield from body())
+
+    return scheduled()
+
+
+def p_norewind_events(h, d):
+    """events saved (with checkpoints) while rewinding is switched off, then rewindable work before the next checkpoint."""
+    det, m1 = d["det"], d["m1"]
+
+    def point():
+        yield Msg("trigger", det, group="t")
+        yield Msg("wait", None, group="t")
+        yield Msg("create", name="primary")
+        yield Msg("read", det)
+        yield Msg("save")
+
+    def body():
+        yield Msg("open_run")
+        yield Msg("checkpoint")
+        yield from point()
+        yield Msg("rewindable", None, False)
+        for _ in range(2):
+            yield Msg("checkpoint")
+            yield from point()
+        yield Msg("rewindable", None, True)
+        yield Msg("set", m1, 1.0, group="g")
+        yield Msg("wait", None, group="g")
+        yield Msg("sleep", None, 0.1)
+        yield Msg("null")
+        yield Msg("checkpoint")
+        yield from point()
         yield Msg("close_run")
 
     return body()
@@ -753,6 +818,8 @@ CORPUS = {
     "nested": p_nested,
     "fly": p_fly,
     "clearcp": p_clearcp,
+    "mon_cfg": p_mon_cfg,
+    "norewind_events": p_norewind_events,
     "collect_sd": p_collect_sd,
     "locate2": p_locate2,
     "late_wait": p_late_wait,
